@@ -248,6 +248,8 @@ func writeResponse(res *promql.Result, w http.ResponseWriter) error {
 		err = writeVector(res, w)
 	case promql.Scalar:
 		err = writeScalar(res, w)
+	case promql.String:
+		err = writeString(res, w)
 	}
 
 	if err != nil {
@@ -260,7 +262,19 @@ func writeResponse(res *promql.Result, w http.ResponseWriter) error {
 
 func writeScalar(res *promql.Result, w http.ResponseWriter) error {
 	val := res.Value.(promql.Scalar)
-	w.Write([]byte(fmt.Sprintf(`%f, "%f"`, float64(val.T)/1000, val.V)))
+	w.Write([]byte(fmt.Sprintf(`%f, "%s"`, float64(val.T)/1000, strconv.FormatFloat(val.V, 'f', -1, 64))))
+	return nil
+}
+
+func writeString(res *promql.Result, w http.ResponseWriter) error {
+	val := res.Value.(promql.String)
+	json := jsoniter.ConfigFastest
+	stream := json.BorrowStream(nil)
+	defer json.ReturnStream(stream)
+	stream.WriteRaw(fmt.Sprintf("%f", float64(val.T)/1000))
+	stream.WriteMore()
+	stream.WriteString(val.V)
+	w.Write(stream.Buffer())
 	return nil
 }
 
